@@ -276,6 +276,25 @@ def run_child(cfg, world, oracle, exit_returns=False):
     return k.log, ending, k
 
 
+def run_child_parsed(pconfig, group_name, world, oracle):
+    """The same for a ProcessConfig produced by the real config parser: the real
+    make_process / get_execv_args (real file system) and then the child side under
+    the recording kernel.  Returns (log, ending, kernel, filename, argv)."""
+    proc = pconfig.make_process(_Group(group_name))
+    proc.pipes = dict(PIPES)
+    filename, argv = proc.get_execv_args()
+    k = Kernel(oracle, world, False)
+    with Patched(k):
+        try:
+            rv = proc._spawn_as_child(filename, argv)
+            ending = 'returned' if rv is None else ('returned_value', repr(rv))
+        except Gone:
+            ending = k.dead or 'gone-without-death'
+        except BaseException as e:
+            ending = ('raised_unexpected', repr(e))
+    return k.log, ending, k, filename, list(argv)
+
+
 def run_drop(world, user, oracle):
     """Run the real ServerOptions.drop_privileges(user) once."""
     from supervisor.options import ServerOptions
